@@ -437,3 +437,26 @@ PROPS["C19"] = pbt(
     thorough={"cases": 100000},
     floors={"groupless_only": 0.12, "groupless_and_sections": 0.15, "malformed_file": 0.08, "cmd_cat": 0.15, "cmd_syntax": 0.2},
 )
+
+PROPS["C18"] = pbt(
+    "pbt_c18", "pbt_c18.cpp", variant="tsan",
+    env={"TSAN_OPTIONS": "exitcode=66:halt_on_error=0:suppressions=/verif/tsan.supp:report_signal_unsafe=0:history_size=3"},
+    rule=("2-16 thread programs of 20-120 operations each over private objects (3 slots), private generated files "
+          "(some malformed) and a private two-layer tree: constructors, typed setters, typed/defaulted/extended "
+          "getters, full listings, econf_writeFile, econf_readFile, econf_readConfig with PARSING_DIRS, econf_readDirs, "
+          "econf_mergeFiles, frees, in-range econf_errString, path/tag queries, yield points. Each program first runs "
+          "alone (digest per operation), then all run concurrently behind a barrier in a ThreadSanitizer build. "
+          "Oracle: per-thread digests equal the serial ones; ThreadSanitizer reports nothing (the two last-error-"
+          "location globals suppressed by name). Excluded by the property: econf_set_conf_dirs, the security setters, "
+          "out-of-range econf_errString. evaluations = operations; non-trivial = execution intervals of >=2 threads "
+          "overlapped and the programs both read and write; distinct = hash of thread count + operation kinds"),
+    technique="generated thread programs under ThreadSanitizer (happens-before race detection) + serial-vs-concurrent differential; schedules are sampled, not owned; rapidcheck",
+    level_text=("exploration with sampled schedules: ThreadSanitizer flags any two unsynchronised conflicting accesses "
+                "that occur in one run regardless of their actual interleaving, which is what matters for a library "
+                "without locks; result-changing interleavings without a data race would be found only by luck. 320 "
+                "(quick) / 10k (thorough) program sets."),
+    level_note="WEAK: the harness does not own the schedule; error location (documented global) is excluded from the digests",
+    quick={"cases": 3200, "max_size": 80},
+    thorough={"cases": 10000},
+    floors={"intervals_overlapped": 0.50},
+)
